@@ -13,8 +13,10 @@ Open Scope list_scope.
 
 Inductive osel := OU | OW.
 Definition osel_of (suffix : string) : option osel :=
-  if tag_is suffix "u" || tag_is suffix "u8" || tag_is suffix "tu" || tag_is suffix "t8u" || tag_is suffix "pu" || tag_is suffix "p8" then Some OU
-  else if tag_is suffix "w" || tag_is suffix "w8" || tag_is suffix "tw" || tag_is suffix "t8w" then Some OW
+  if tag_is suffix "u" || tag_is suffix "u8" || tag_is suffix "tu" || tag_is suffix "t8u" || tag_is suffix "pu" || tag_is suffix "p8"
+     || tag_is suffix "bu" || tag_is suffix "b8u" || tag_is suffix "tbu" || tag_is suffix "tb8u" then Some OU
+  else if tag_is suffix "w" || tag_is suffix "w8" || tag_is suffix "tw" || tag_is suffix "t8w"
+          || tag_is suffix "bw" || tag_is suffix "b8w" || tag_is suffix "tbw" || tag_is suffix "tb8w" then Some OW
   else None.
 Definition ospec (s : osel) (p : list byte) : list wcomp := match s with OU => uspec p | OW => wspec p end.
 Definition otable (s : osel) : list byte := match s with OU => forbidden_unix | OW => forbidden_windows end.
@@ -329,7 +331,8 @@ Definition oracle_c10 (s : osel) (a b : list byte) (out : val) : N :=
   end.
 
 Definition oracle (name suffix : string) (args : list val) (out : val) : N :=
-  let typed := tag_is suffix "tu" || tag_is suffix "tw" || tag_is suffix "t8u" || tag_is suffix "t8w" in
+  let typed := tag_is suffix "tu" || tag_is suffix "tw" || tag_is suffix "t8u" || tag_is suffix "t8w"
+               || tag_is suffix "tbu" || tag_is suffix "tbw" || tag_is suffix "tb8u" || tag_is suffix "tb8w" in
   match osel_of suffix with
   | None => pass
   | Some s =>
